@@ -41,6 +41,10 @@ JOB_TIMEOUT = 3000
 
 
 def _config(rng, kind):
+    if kind == "chain":
+        cfg = _config(rng, rng.choice(["allsh", "mixed"]))
+        cfg.update(kind="chain", chain=rng.choice([2, 3, 5]), workers=1)
+        return cfg
     n = rng.randint(3, 6) if kind != "big" else 6
     if kind == "allsh":
         moves = ["sh"] * n
@@ -79,6 +83,11 @@ def plan(tier, seed):
         kinds = ["wf0cap", "allsh", "allwf", "mixed", "mixed", "wf0cap",
                  "mixed", "allsh", "mixed", "allwf", "wf0cap", "mixed"]
         R, steps = 48, 7000
+    # "across restarts": one configuration per run (three in the thorough
+    # tier) is a restart chain - every replica is stopped and restarted every
+    # 2-5 steps, so whatever a restart does to the live paths (tags, caches,
+    # limits that are not persisted) acts on a large fraction of all moves
+    kinds = kinds + (["chain"] if tier == "quick" else ["chain"] * 3)
     jobs = []
     forced = None
     if os.environ.get("VERIF_C01_CONFIG"):
@@ -95,7 +104,12 @@ def plan(tier, seed):
             spec = dict(cfg, steps=steps, seed=rng.randrange(2 ** 31),
                         adv_seed=rng.randrange(2 ** 31), maxlength=2000,
                         screen=0)
-            if r % 3 == 0:
+            if cfg.get("chain"):
+                g = cfg["chain"]
+                spec["segments"] = [{"steps": k}
+                                    for k in range(g, steps, g)] + \
+                    [{"steps": steps}]
+            elif r % 3 == 0:
                 k = rng.randint(max(spec["workers"], steps // 5),
                                 steps - steps // 5)
                 if r % 2 == 0:
